@@ -134,6 +134,7 @@ def rand_config(rng, typ, first=False):
             cfg["ttl"] = rng.choice([2, 3, 4, 6])
     else:
         cfg["relevant"] = rng.choice([[429], [429, 503]])
+        cfg["hdrname"] = rng.choice(["Retry-After", "retry-after", "X-RateLimit-Retry-After"])    # the policy's spelling
     return cfg
 
 
@@ -188,7 +189,7 @@ def rand_history(rng, cfg, n, conc):
             o["st"] = rng.choice([429, 429, 429, 503, 200])
             o["sz"] = 1
             if rng.random() < 0.9:
-                o["hh"] = 1
+                o["hh"] = 2 if rng.random() < 0.2 else 1      # 2: the provider spells the header in another letter case
                 o["hdr"] = rng.choice([0, 1, 2, 3, 5, 8]) if typ == "rel" else now + rng.choice([-1, 0, 1, 2, 3, 5, 8])
                 exps.append(now + o["hdr"] if typ == "rel" else o["hdr"])
         return o
